@@ -30,3 +30,10 @@ package common
 //@ func CheckKeySubKey(key []byte, field []byte) error
 //@   ensures result == nil <==> (1 <= len(key) && len(key) <= MaxKeySize && len(field) <= MaxSubKeyLen)
 //@   ensures result == nil || result == errKeySize || result == errSubKeySize
+
+//@ property C13 C11 C15
+// table prefix of a raw key: everything before the first ':'
+//@ func ExtractTable(rawKey []byte) ([]byte, []byte, error)
+//@   ensures result2 == nil <==> (exists idx int :: firstSep(rawKey, idx))
+//@   ensures result2 == nil ==> (forall idx int :: firstSep(rawKey, idx) ==> sameSlice(result0, rawKey[0:idx]) && sameSlice(result1, rawKey[idx+1:len(rawKey)]))
+//@   ensures result2 != nil ==> result0 == nil && result1 == nil
